@@ -216,7 +216,7 @@ def str_consts_compared(node_iter, varname) -> Set[str]:
     """String constants a variable is compared with (==, in (...)) anywhere in the given nodes."""
     out = set()
     for n in node_iter:
-        if isinstance(n, ast.Compare) and isinstance(n.left, ast.Name) and n.left.id == varname and len(n.ops) == 1:
+        if isinstance(n, ast.Compare) and isinstance(n.left, ast.Name) and (varname is None or n.left.id == varname) and len(n.ops) == 1:
             c = n.comparators[0]
             if isinstance(n.ops[0], (ast.Eq, ast.NotEq)) and isinstance(c, ast.Constant) and isinstance(c.value, str):
                 out.add(c.value)
@@ -367,6 +367,33 @@ def reaching_def(ctx, fi, name, at_node):
     return best.ast.value if best is not None else None
 
 
+def reaching_defs(ctx, fi, name, at_node):
+    """All definitions of `name` that may reach the statement containing at_node: a list of value expressions, with the
+    marker "<param>" for the parameter's value at entry and "<other>" for binders that are not plain assignments."""
+    cfg = ctx.cfg(fi)
+    use_st = ctx.stmt_of(fi, at_node)
+    use_ids = cfg.node_ids_for(use_st)
+    from ..cfg import _killed_names
+    defs, other = [], []
+    for n in cfg.stmt_nodes():
+        a = n.ast
+        if isinstance(a, ast.Assign) and len(a.targets) == 1 and isinstance(a.targets[0], ast.Name) and a.targets[0].id == name:
+            defs.append(n)
+        elif name in _killed_names(n):
+            other.append(n)
+    res = []
+    binders = {x.id for x in defs + other}
+    for uid in use_ids:
+        for d in defs + other:
+            if cfg.path(d.id, {uid}, blocked=(binders - {d.id}) - {uid}, kinds="nx", from_successors=True) is not None:
+                v = d.ast.value if d in defs else "<other>"
+                if all(v is not r for r in res):
+                    res.append(v)
+        if name in fi.params and cfg.path(cfg.entry, {uid}, blocked=binders - {uid}, kinds="nx") is not None and "<param>" not in res:
+            res.append("<param>")
+    return res
+
+
 def inline_at(ctx, fi, expr, at_node, depth=4):
     """Inline names by their unique reaching definition at at_node (falls back to the single-assignment env)."""
     import copy as _copy
@@ -444,3 +471,90 @@ def exclude_predicate_verdict(ctx, fi, fact_text, name_var="fn"):
     if apis <= {"re.match"}:
         return "ok", "a name is excluded iff some pattern re.match()es the file name"
     return "inc", f"exclude patterns are applied with {sorted(apis)}"
+
+
+# ---------------------------------------------------------------------------
+# structural patterns with metavariables: names consisting of one capital letter (optionally one digit) match any
+# expression, consistently; everything else must match exactly (modulo expression context).  Lets rules speak about
+# shapes without naming the local variables of the analysed code.
+# ---------------------------------------------------------------------------
+import re as _re
+
+_MV = _re.compile(r"^[A-Z][0-9]?$")
+_PAT_CACHE = {}
+
+
+def _pat(src):
+    if src not in _PAT_CACHE:
+        _PAT_CACHE[src] = ast.parse(src, mode="eval").body
+    return _PAT_CACHE[src]
+
+
+def _pm(p, n, b):
+    if isinstance(p, ast.Name) and _MV.match(p.id):
+        if p.id in b:
+            return canon(b[p.id]) == canon(n)
+        b[p.id] = n
+        return True
+    if type(p) is not type(n):
+        return False
+    for f in p._fields:
+        if f in ("ctx", "lineno", "col_offset", "end_lineno", "end_col_offset", "type_comment", "kind"):
+            continue
+        pv, nv = getattr(p, f, None), getattr(n, f, None)
+        if isinstance(pv, list):
+            if not isinstance(nv, list) or len(pv) != len(nv):
+                return False
+            for x, y in zip(pv, nv):
+                if isinstance(x, ast.AST):
+                    if not _pm(x, y, b):
+                        return False
+                elif x != y:
+                    return False
+        elif isinstance(pv, ast.AST):
+            if not isinstance(nv, ast.AST) or not _pm(pv, nv, b):
+                return False
+        else:
+            if pv != nv:
+                return False
+    return True
+
+
+def pmatch(pattern, node):
+    """Bindings {metavariable: sub-expression} if node has the shape of pattern, else None."""
+    if node is None:
+        return None
+    b = {}
+    return b if _pm(_pat(pattern), node, b) else None
+
+
+def pfind(pattern, root):
+    """All (node, bindings) below root (inclusive) that match pattern."""
+    out = []
+    for n in ast.walk(root):
+        if isinstance(n, ast.expr):
+            b = pmatch(pattern, n)
+            if b is not None:
+                out.append((n, b))
+    return out
+
+
+def loop_over(fi, pattern):
+    """For loops of fi whose iterable matches pattern: [(for_node, bindings)]."""
+    res = []
+    for n in body_nodes(fi):
+        if isinstance(n, (ast.For, ast.AsyncFor)):
+            b = pmatch(pattern, n.iter)
+            if b is not None:
+                res.append((n, b))
+    return res
+
+
+def target_names(t):
+    if isinstance(t, ast.Name):
+        return [t.id]
+    if isinstance(t, (ast.Tuple, ast.List)):
+        return [x for e in t.elts for x in target_names(e)]
+    if isinstance(t, ast.Starred):
+        return target_names(t.value)
+    return []
